@@ -11,6 +11,7 @@ Three roles, all executed by /venv/bin/python against the repo working tree:
 * `run_site(case)`: called by impl/runner.py; sends the case to a pool of workers started with
   different PYTHONHASHSEED values and different random seeds and returns all their answers.
 """
+from impl.excname import exc_name
 import hashlib, json, os, re, subprocess, sys
 
 HASHSEEDS = ["0", "1", "2", "3"]          # workers of the site suite
@@ -21,7 +22,7 @@ ID_RE = re.compile(r"_(cond|filt)_[a-z]{10}")
 # process-level driver
 # ------------------------------------------------------------------------------------------
 def _err(title, e):
-    return [title, type(e).__name__, str(e)]
+    return [title, exc_name(e), str(e)]
 
 
 def convert_entry(entry):
@@ -152,7 +153,7 @@ def _convert(docs, pipeline_yaml=None):
 
 def _sigma(e):
     from sigma.exceptions import SigmaError
-    return {"exc": type(e).__name__, "sigma": isinstance(e, SigmaError), "msg": str(e)}
+    return {"exc": exc_name(e), "sigma": isinstance(e, SigmaError), "msg": str(e)}
 
 
 def cond_str(c, top=True):
@@ -376,7 +377,7 @@ def site(case):
         if isinstance(e, (KeyboardInterrupt, SystemExit, MemoryError)):
             raise
         from sigma.exceptions import SigmaError
-        return {"err": str(e.args[0]) if e.args else str(e), "cls": type(e).__name__, "sigma": isinstance(e, SigmaError)}
+        return {"err": str(e.args[0]) if e.args else str(e), "cls": exc_name(e), "sigma": isinstance(e, SigmaError)}
 
 
 def worker_main():
